@@ -96,6 +96,10 @@ with gstmt :=
             (where_ : option gexpr) (returning : list gexpr)
   | GDelete (w : option gwith) (table alias : string) (using_ : list gtable) (where_ : option gexpr)
             (returning : list gexpr)
+  | GMerge (target talias source salias : string) (on : gexpr) (whens : list gwhen)   (* MergeStatement *)
+with gwhen := GWhen (ty : string) (cond : option gexpr) (action : gaction)           (* MergeWhenClause{Type,Condition,Action} *)
+with gaction := GAction (ty : string) (sets : list (string * gexpr)) (cols : list string) (vals : list gexpr)
+                        (default : bool)                                              (* MergeAction *)
 with gselect :=
   | GSelect (w : option gwith) (distinct : bool) (distinct_on : list gexpr) (cols : list gexpr)
             (from : list gtable) (table_name : string) (joins : list gjoin) (where_ : option gexpr)
@@ -267,6 +271,22 @@ with reflect_stmt (s : gstmt) : sx :=
         (f_str "Alias" al ++ f_list "Returning" (map reflect_expr ret) ++ f_str "TableName" t
          ++ f_list "Using" (map reflect_table us) ++ f_opt "Where" (option_map reflect_expr wh)
          ++ f_opt "With" (option_map reflect_with w))
+  | GMerge t ta s sa on whens =>
+      SNode "MergeStatement"
+        ([("OnCondition", reflect_expr on)] ++ f_str "SourceAlias" sa ++ [("SourceTable", SNode "TableReference" (f_str "Name" s))]
+         ++ f_str "TargetAlias" ta ++ [("TargetTable", SNode "TableReference" (f_str "Name" t))]
+         ++ f_list "WhenClauses" (map reflect_when whens))
+  end
+with reflect_when (w : gwhen) : sx :=
+  match w with
+  | GWhen t c a => SNode "MergeWhenClause" ([("Action", reflect_action a)] ++ f_opt "Condition" (option_map reflect_expr c) ++ f_str "Type" t)
+  end
+with reflect_action (a : gaction) : sx :=
+  match a with
+  | GAction t sets cols vals df =>
+      SNode "MergeAction" (f_str "ActionType" t ++ f_strs "Columns" cols ++ f_bool "DefaultValues" df
+                           ++ f_list "SetClauses" (map (fun cv : string * gexpr => match cv with (c, v) => SNode "SetClause" (f_str "Column" c ++ [("Value", reflect_expr v)]) end) sets)
+                           ++ f_list "Values" (map reflect_expr vals))
   end
 with reflect_select (q : gselect) : sx :=
   match q with
